@@ -10,6 +10,8 @@ open IsoVerif.Model
 
 def shiftEK (k : Int) (e : C17.ExonKey) : C17.ExonKey := (e.1, e.2.1 + k, e.2.2.1 + k, e.2.2.2)
 def shiftRefFeature (k : Int) (f : C17.RefFeature) : C17.RefFeature := { f with start := f.start + k, stop := f.stop + k }
+/-- a reference record of any feature type (the repaired `FeatureIdStorage.__init__` reads all of them) -/
+def shiftRefRecord (k : Int) (r : C17.RefRecord) : C17.RefRecord := { r with feat := shiftRefFeature k r.feat }
 def shiftIdStorage (k : Int) (st : C17.FeatureIdStorage) : C17.FeatureIdStorage :=
   { st with dict := st.dict.map (fun p => (shiftEK k p.1, p.2)) }
 
